@@ -580,3 +580,466 @@ Proof.
   pose proof (build_all_char (recs prog) [] ([], []) Rep_nil) as H.
   destruct (build_all (recs prog) ([], [])) as [[pm cm]|]; cbn; exact H.
 Qed.
+
+(* ------------------------------------------------------------------ E: the theorems *)
+Lemma lit_expr_holds : forall rho l, beval rho (lit_expr l) = lit_holds rho l.
+Proof.
+  intros rho [p b]. unfold lit_expr, lit_holds. cbn. destruct b; cbn.
+  - rewrite xorb_true_r. reflexivity.
+  - rewrite xorb_false_r. reflexivity.
+Qed.
+
+Definition beval_o (rho : pid -> bool) (o : option bexpr) : bool :=
+  match o with Some b => beval rho b | None => true end.
+
+Lemma sel_fold_holds : forall rho ls acc,
+  beval_o rho (fold_left (fun s l => and_opt s (lit_expr l)) ls acc) = beval_o rho acc && holds rho ls.
+Proof.
+  induction ls as [|l ls IH]; intro acc; cbn.
+  - rewrite andb_true_r. reflexivity.
+  - rewrite IH. destruct acc; cbn; rewrite lit_expr_holds; [rewrite andb_assoc|]; reflexivity.
+Qed.
+
+(* the select wire _current_select returns evaluates to the conjunction of its pred_set *)
+Lemma sel_of_lits_holds : forall rho ls s, sel_of_lits ls = Some s -> beval rho s = holds rho ls.
+Proof.
+  intros rho ls s H. pose proof (sel_fold_holds rho ls None) as H1.
+  unfold sel_of_lits in H. rewrite H in H1. exact H1.
+Qed.
+
+Lemma the_sel_holds : forall rho ls, nonempty ls = true -> beval rho (the_sel ls) = holds rho ls.
+Proof.
+  intros rho ls Hne. unfold the_sel. destruct (sel_of_lits ls) eqn:E.
+  - apply sel_of_lits_holds. exact E.
+  - apply sel_none_iff in E. congruence.
+Qed.
+
+Lemma filter_map' : forall (A B : Type) (f : B -> bool) (g : A -> B) l,
+  filter f (map g l) = map g (filter (fun x => f (g x)) l).
+Proof.
+  induction l as [|x l IH]; cbn; [reflexivity|]. rewrite IH. destruct (f (g x)); reflexivity.
+Qed.
+
+Lemma filter_filter' : forall (A : Type) (f g : A -> bool) l,
+  filter f (filter g l) = filter (fun x => f x && g x) l.
+Proof.
+  induction l as [|x l IH]; cbn; [reflexivity|].
+  destruct (g x); cbn; rewrite IH; [|rewrite andb_false_r; reflexivity].
+  rewrite andb_true_r. reflexivity.
+Qed.
+
+Lemma accepts_facts : forall prog, spec_accepts prog = true ->
+  forallb (fun r => nonempty (r_lits r)) (recs prog) = true /\ pw (recs prog) = true.
+Proof.
+  intros prog H. rewrite <- ok_all_spec, ok_all_split, cross_nil, andb_true_r in H.
+  apply andb_true_iff in H. exact H.
+Qed.
+
+(* Theorem 1: every recorded select condition is the activity of its branch *)
+Theorem select_is_activity : forall prog s, elab_forest prog init_st = Some s ->
+  forall rho l,
+    map (fun sp => (snd sp, beval rho (fst sp))) (am_get (pmap s) l) = flags_for rho prog l.
+Proof.
+  intros prog s Hs rho l. pose proof (elab_forest_char prog) as H. rewrite Hs in H.
+  destruct H as [Hacc (Hp & _ & _)]. cbn [fst] in Hp. rewrite Hp.
+  destruct (accepts_facts prog Hacc) as [Hne _].
+  unfold flags_for. rewrite <- recs_flags, filter_map', !map_map.
+  change (fun x : rcd => lhs_eqb l (fst (fst (proj_flag rho x)))) with (same l).
+  apply map_ext_in. intros r Hr. apply filter_In in Hr. destruct Hr as [Hr _].
+  cbn. f_equal. apply the_sel_holds.
+  rewrite forallb_forall in Hne. apply Hne. exact Hr.
+Qed.
+
+Lemma syn_excl_sound : forall rho a b,
+  syn_excl a b = true -> holds rho a = true -> holds rho b = true -> False.
+Proof.
+  intros rho a b H Ha Hb. unfold syn_excl in H.
+  apply existsb_exists in H. destruct H as [[pa ba] [Hina H]].
+  apply existsb_exists in H. destruct H as [[pb bb] [Hinb H]].
+  cbn in H. apply andb_true_iff in H. destruct H as [Hp Hx]. apply Z.eqb_eq in Hp. subst pb.
+  unfold holds in Ha, Hb. rewrite forallb_forall in Ha, Hb.
+  specialize (Ha _ Hina). specialize (Hb _ Hinb). unfold lit_holds in Ha, Hb. cbn in Ha, Hb.
+  destruct (rho pa), ba, bb; discriminate.
+Qed.
+
+Lemma filter_nil_iff : forall (A : Type) (f : A -> bool) l,
+  filter f l = [] <-> (forall y, In y l -> f y = false).
+Proof.
+  induction l as [|x l IH]; cbn.
+  - split; [intros _ y []|reflexivity].
+  - destruct (f x) eqn:E.
+    + split; [discriminate|]. intro H. rewrite (H x) in E; [discriminate|left; reflexivity].
+    + rewrite IH. split.
+      * intros H y [<-|Hy]; [exact E|apply H; exact Hy].
+      * intros H y Hy. apply H. right. exact Hy.
+Qed.
+
+Lemma pw_unique : forall rho l rs, pw rs = true ->
+  (length (filter (fun r => holds rho (r_lits r) && same l r) rs) <= 1)%nat.
+Proof.
+  intros rho l. induction rs as [|x rs IH]; intro H; cbn; [lia|].
+  cbn in H. apply andb_true_iff in H. destruct H as [Hx Hrs].
+  destruct (holds rho (r_lits x) && same l x) eqn:Ex; [|apply IH; exact Hrs].
+  apply andb_true_iff in Ex. destruct Ex as [Hhx Hsx].
+  assert (Hnil : filter (fun r => holds rho (r_lits r) && same l r) rs = []).
+  { apply filter_nil_iff. intros y Hy.
+    destruct (holds rho (r_lits y) && same l y) eqn:Ey; [|reflexivity]. exfalso.
+    apply andb_true_iff in Ey. destruct Ey as [Hhy Hsy].
+    rewrite forallb_forall in Hx. specialize (Hx y Hy). unfold compat in Hx.
+    unfold same in Hsx, Hsy. apply lhs_eqb_eq in Hsx, Hsy. rewrite <- Hsx, <- Hsy in Hx.
+    rewrite lhs_eqb_refl in Hx. cbn in Hx.
+    exact (syn_excl_sound rho _ _ Hx Hhy Hhx). }
+  rewrite Hnil. cbn. lia.
+Qed.
+
+Lemma active_for_recs : forall rho prog l,
+  active_for rho prog l
+  = map r_pl (filter (fun r => holds rho (r_lits r) && same l r) (recs prog)).
+Proof.
+  intros. unfold active_for. rewrite <- recs_flags, filter_map', map_map. reflexivity.
+Qed.
+
+(* Theorem 2: soundness of the syntactic conflict check *)
+Theorem accepted_exclusive : forall prog, spec_accepts prog = true ->
+  forall rho l, (length (active_for rho prog l) <= 1)%nat.
+Proof.
+  intros prog H rho l. rewrite active_for_recs, map_length.
+  apply pw_unique. apply (accepts_facts prog H).
+Qed.
+
+(* Theorem 3: the model raises exactly when the syntactic criterion fails *)
+Theorem elab_none_iff : forall prog d, elab prog d = None <-> spec_accepts prog = false.
+Proof.
+  intros prog d. unfold elab. pose proof (elab_forest_char prog) as H.
+  destruct (elab_forest prog init_st) as [s|].
+  - destruct H as [H _]. rewrite H. split; discriminate.
+  - rewrite H. split; reflexivity.
+Qed.
+
+(* ---- the select chains of _finalize *)
+Definition chain (g : payload -> vexpr) (rs : list (bexpr * payload)) (dflt : vexpr) : vexpr :=
+  fold_left (fun acc pr => VSel (fst pr) (g (snd pr)) acc) rs dflt.
+
+Lemma chain_none : forall E g rs dflt,
+  (forall x, In x rs -> beval (e_pred E) (fst x) = false) ->
+  veval E (chain g rs dflt) = veval E dflt.
+Proof.
+  intros E g. induction rs as [|x rs IH]; intros dflt H; [reflexivity|].
+  unfold chain. cbn [fold_left]. fold (chain g rs (VSel (fst x) (g (snd x)) dflt)).
+  rewrite IH; [|intros y Hy; apply H; right; exact Hy].
+  cbn [veval]. rewrite (H x); [reflexivity|left; reflexivity].
+Qed.
+
+Lemma chain_one : forall E g a x b dflt,
+  beval (e_pred E) (fst x) = true ->
+  (forall y, In y b -> beval (e_pred E) (fst y) = false) ->
+  veval E (chain g (a ++ x :: b) dflt) = veval E (g (snd x)).
+Proof.
+  intros E g a x b dflt Hx Hb. unfold chain. rewrite fold_left_app. cbn [fold_left].
+  fold (chain g b (VSel (fst x) (g (snd x)) (fold_left (fun acc pr => VSel (fst pr) (g (snd pr)) acc) a dflt))).
+  rewrite chain_none; [|exact Hb]. cbn [veval]. rewrite Hx. reflexivity.
+Qed.
+
+Lemma filter_single : forall (A : Type) (f : A -> bool) l x,
+  filter f l = [x] ->
+  exists a b, l = a ++ x :: b /\ (forall y, In y a -> f y = false) /\ f x = true
+              /\ (forall y, In y b -> f y = false).
+Proof.
+  induction l as [|y l IH]; intros x H; cbn in H; [discriminate|].
+  destruct (f y) eqn:E.
+  - injection H as -> Hnil. exists [], l. repeat split.
+    + intros z [].
+    + exact E.
+    + apply filter_nil_iff. exact Hnil.
+  - destruct (IH x H) as (a & b & -> & Ha & Hx & Hb).
+    exists (y :: a), b. repeat split.
+    + intros z [<-|Hz]; [exact E|apply Ha; exact Hz].
+    + exact Hx.
+    + exact Hb.
+Qed.
+
+(* kinds: Assign records carry PVal, MemAssign records carry PMem *)
+Definition kind_ok (r : rcd) : Prop :=
+  match r_lhs r, r_pl r with
+  | LW _, PVal _ => True
+  | LM _, PMem _ _ _ => True
+  | _, _ => False
+  end.
+
+Lemma recs_kind_tree : forall t ctx pre, Forall kind_ok (recs_tree ctx pre t).
+Proof.
+  induction t as [p body IH|body IH|t r|m a d e] using ctree_ind2; intros ctx pre.
+  - rewrite recs_tree_With. generalize (@nil cond) as pr.
+    induction IH as [|x l Hx Hl IHl]; intro pr; [constructor|].
+    rewrite recs_forest_cons. apply Forall_app. split; [apply Hx|apply IHl].
+  - rewrite recs_tree_Otherwise. generalize (@nil cond) as pr.
+    induction IH as [|x l Hx Hl IHl]; intro pr; [constructor|].
+    rewrite recs_forest_cons. apply Forall_app. split; [apply Hx|apply IHl].
+  - repeat constructor.
+  - repeat constructor.
+Qed.
+
+Lemma recs_kind : forall prog, Forall kind_ok (recs prog).
+Proof.
+  intro prog. unfold recs. generalize (@nil cond) as pr.
+  induction prog as [|x l IH]; intro pr; [constructor|].
+  rewrite recs_forest_cons. apply Forall_app. split; [apply recs_kind_tree|apply IH].
+Qed.
+
+Lemma res_get_finalize : forall d pm l, In l (map fst pm) ->
+  res_get (map (fin_one d) pm) l = Some (snd (fin_one d (l, am_get pm l))).
+Proof.
+  intros d. induction pm as [|[k vs] pm IH]; intros l Hin; [destruct Hin|].
+  cbn [map res_get am_get].
+  assert (Hk : fst (fin_one d (k, vs)) = k) by (destruct k; reflexivity).
+  destruct (fin_one d (k, vs)) as [k' e] eqn:Ef. cbn in Hk. subst k'.
+  destruct (lhs_eqb l k) eqn:E.
+  - apply lhs_eqb_eq in E. subst l. rewrite Ef. reflexivity.
+  - apply IH. destruct Hin as [Hin|Hin]; [|exact Hin].
+    cbn in Hin. subst l. rewrite lhs_eqb_refl in E. discriminate.
+Qed.
+
+Lemma slits_keys : forall prog, map fst (slits prog) = map r_lhs (recs prog).
+Proof. intro prog. rewrite <- recs_slits, map_map. reflexivity. Qed.
+
+Lemma default_expr_value : forall E d t, veval E (default_expr d t) = default_value E d t.
+Proof.
+  intros E d t. unfold default_expr, default_value.
+  destruct (dflt_get d t); [reflexivity|]. destruct t; reflexivity.
+Qed.
+
+(* common set-up for the value theorems *)
+Lemma accepted_setup : forall prog d res, elab prog d = Some res ->
+  exists s, res = finalize d s /\ spec_accepts prog = true /\
+    (forall l, am_get (pmap s) l = map selpl (filter (same l) (recs prog))) /\
+    (forall l, In l (map fst (pmap s)) <-> In l (map fst (slits prog))).
+Proof.
+  intros prog d res H. unfold elab in H. pose proof (elab_forest_char prog) as Hc.
+  destruct (elab_forest prog init_st) as [s|]; [|discriminate].
+  injection H as <-. destruct Hc as [Hacc (Hp & _ & Hk)]. cbn [fst] in Hp, Hk.
+  exists s. repeat split; try assumption.
+  - rewrite slits_keys. apply Hk.
+  - rewrite slits_keys. apply Hk.
+Qed.
+
+(* evaluation of a chain over the records of one target *)
+Lemma chain_records : forall E g prog l X dflt,
+  spec_accepts prog = true ->
+  X = filter (same l) (recs prog) ->
+  match active_for (e_pred E) prog l with
+  | [] => veval E (chain g (map selpl X) dflt) = veval E dflt
+  | [pl] => veval E (chain g (map selpl X) dflt) = veval E (g pl)
+  | _ => False
+  end.
+Proof.
+  intros E g prog l X dflt Hacc HX.
+  destruct (accepts_facts prog Hacc) as [Hne Hpw].
+  pose proof (pw_unique (e_pred E) l (recs prog) Hpw) as Hlen.
+  rewrite active_for_recs.
+  assert (Hf : filter (fun r => holds (e_pred E) (r_lits r) && same l r) (recs prog)
+               = filter (fun r => holds (e_pred E) (r_lits r)) X).
+  { subst X. rewrite filter_filter'. reflexivity. }
+  rewrite Hf in *.
+  assert (Hact : forall r, In r X ->
+            beval (e_pred E) (fst (selpl r)) = holds (e_pred E) (r_lits r)).
+  { intros r Hr. subst X. apply filter_In in Hr. destruct Hr as [Hr _]. cbn.
+    apply the_sel_holds. rewrite forallb_forall in Hne. apply Hne. exact Hr. }
+  destruct (filter (fun r => holds (e_pred E) (r_lits r)) X) as [|r [|r2 rest]] eqn:EF.
+  - cbn. apply chain_none. intros x Hx. apply in_map_iff in Hx. destruct Hx as [r [<- Hr]].
+    rewrite Hact by exact Hr. apply (proj1 (filter_nil_iff _ _ X) EF). exact Hr.
+  - cbn. destruct (filter_single _ _ _ _ EF) as (a & b & HXab & Ha & Hr & Hb).
+    rewrite HXab, map_app. cbn [map]. rewrite chain_one; [reflexivity| |].
+    + rewrite Hact; [exact Hr|]. rewrite HXab. apply in_or_app. right. left. reflexivity.
+    + intros y Hy. apply in_map_iff in Hy. destruct Hy as [r' [<- Hr']].
+      rewrite Hact; [apply Hb; exact Hr'|]. rewrite HXab. apply in_or_app. right. right. exact Hr'.
+  - cbn in Hlen. lia.
+Qed.
+
+(* Theorem 4a: wires and registers *)
+Theorem value_wire : forall prog d res, elab prog d = Some res ->
+  forall t, In (LW t) (map fst (slits prog)) ->
+  exists e, res_get res (LW t) = Some (FVal e) /\
+            forall E, Some (veval E e) = spec_value E d prog t.
+Proof.
+  intros prog d res H t Hin.
+  destruct (accepted_setup prog d res H) as (s & -> & Hacc & Hp & Hk).
+  exists (fin_val (default_expr d t) (am_get (pmap s) (LW t))). split.
+  - unfold finalize. rewrite res_get_finalize; [reflexivity|]. apply Hk. exact Hin.
+  - intro E. rewrite Hp.
+    pose proof (chain_records E pl_val prog (LW t) _ (default_expr d t) Hacc eq_refl) as Hc.
+    unfold spec_value. fold (chain pl_val (map selpl (filter (same (LW t)) (recs prog))) (default_expr d t)).
+    pose proof (active_for_recs (e_pred E) prog (LW t)) as Hact.
+    destruct (active_for (e_pred E) prog (LW t)) as [|pl [|pl2 rest]]; [| |destruct Hc].
+    + change (fin_val (default_expr d t)) with (fun rs => chain pl_val rs (default_expr d t)).
+      cbn beta. rewrite Hc, default_expr_value. reflexivity.
+    + change (fin_val (default_expr d t)) with (fun rs => chain pl_val rs (default_expr d t)).
+      cbn beta. rewrite Hc.
+      (* the single active payload is a PVal *)
+      assert (Hk1 : exists r, pl = PVal r).
+      { assert (Hinpl : In pl (map r_pl (filter (fun r => holds (e_pred E) (r_lits r) && same (LW t) r) (recs prog)))).
+        { rewrite <- Hact. left. reflexivity. }
+        apply in_map_iff in Hinpl. destruct Hinpl as [r [<- Hr]].
+        apply filter_In in Hr. destruct Hr as [Hr Hs].
+        apply andb_true_iff in Hs. destruct Hs as [_ Hs]. unfold same in Hs. apply lhs_eqb_eq in Hs.
+        pose proof (recs_kind prog) as HK. rewrite Forall_forall in HK. specialize (HK r Hr).
+        unfold kind_ok in HK. rewrite <- Hs in HK. destruct (r_pl r); [eexists; reflexivity|destruct HK]. }
+      destruct Hk1 as [r ->]. reflexivity.
+Qed.
+
+Lemma active_kind : forall rho prog l pl, In pl (active_for rho prog l) ->
+  match l, pl with
+  | LW _, PVal _ => True
+  | LM _, PMem _ _ _ => True
+  | _, _ => False
+  end.
+Proof.
+  intros rho prog l pl Hin. rewrite active_for_recs in Hin.
+  apply in_map_iff in Hin. destruct Hin as [r [<- Hr]].
+  apply filter_In in Hr. destruct Hr as [Hr Hs].
+  apply andb_true_iff in Hs. destruct Hs as [_ Hs]. unfold same in Hs. apply lhs_eqb_eq in Hs.
+  pose proof (recs_kind prog) as HK. rewrite Forall_forall in HK. specialize (HK r Hr).
+  unfold kind_ok in HK. rewrite <- Hs in HK. exact HK.
+Qed.
+
+Lemma chain_dflt_ext : forall E g rs d1 d2,
+  veval E d1 = veval E d2 -> veval E (chain g rs d1) = veval E (chain g rs d2).
+Proof.
+  intros E g. induction rs as [|x rs IH]; intros d1 d2 H; [exact H|].
+  unfold chain. cbn [fold_left].
+  fold (chain g rs (VSel (fst x) (g (snd x)) d1)). fold (chain g rs (VSel (fst x) (g (snd x)) d2)).
+  apply IH. cbn [veval]. rewrite H. reflexivity.
+Qed.
+
+(* Theorem 4b: memories *)
+Theorem value_mem : forall prog d res, elab prog d = Some res ->
+  forall m, In (LM m) (map fst (slits prog)) ->
+  exists en ad da, res_get res (LM m) = Some (FMem en ad da) /\
+    forall E,
+      match spec_mem E prog m with
+      | Some None => veval E en = 0
+      | Some (Some (a, dd, e)) => veval E en = e /\ veval E ad = a /\ veval E da = dd
+      | None => False
+      end.
+Proof.
+  intros prog d res H m Hin.
+  destruct (accepted_setup prog d res H) as (s & -> & Hacc & Hp & Hk).
+  assert (HX : exists r0 X', filter (same (LM m)) (recs prog) = r0 :: X').
+  { rewrite slits_keys in Hin. apply in_map_iff in Hin. destruct Hin as [r [Hl Hr]].
+    destruct (filter (same (LM m)) (recs prog)) as [|r0 X'] eqn:EX; [|eauto].
+    exfalso. assert (Hf : In r (filter (same (LM m)) (recs prog))).
+    { apply filter_In. split; [exact Hr|]. unfold same. rewrite Hl. apply lhs_eqb_refl. }
+    rewrite EX in Hf. destruct Hf. }
+  destruct HX as (r0 & X' & HX).
+  exists (chain pl_en (map selpl (r0 :: X')) VZero),
+         (chain pl_addr (map selpl X') (pl_addr (r_pl r0))),
+         (chain pl_val (map selpl X') (pl_val (r_pl r0))).
+  split.
+  - unfold finalize. rewrite res_get_finalize; [|apply Hk; rewrite slits_keys in *; exact Hin].
+    rewrite Hp, HX. reflexivity.
+  - intro E.
+    assert (Hshift : forall g,
+              veval E (chain g (map selpl X') (g (r_pl r0)))
+              = veval E (chain g (map selpl (r0 :: X')) (g (r_pl r0)))).
+    { intro g. cbn [map]. unfold chain at 2. cbn [fold_left].
+      fold (chain g (map selpl X') (VSel (fst (selpl r0)) (g (snd (selpl r0))) (g (r_pl r0)))).
+      apply chain_dflt_ext. cbn [veval selpl snd]. destruct (beval _ _); reflexivity. }
+    pose proof (chain_records E pl_en prog (LM m) _ VZero Hacc (eq_sym HX)) as Hen.
+    pose proof (chain_records E pl_addr prog (LM m) _ (pl_addr (r_pl r0)) Hacc (eq_sym HX)) as Had.
+    pose proof (chain_records E pl_val prog (LM m) _ (pl_val (r_pl r0)) Hacc (eq_sym HX)) as Hda.
+    pose proof (active_kind (e_pred E) prog (LM m)) as HK.
+    unfold spec_mem.
+    destruct (active_for (e_pred E) prog (LM m)) as [|pl [|pl2 rest]]; [| |destruct Hen].
+    + exact Hen.
+    + specialize (HK pl (or_introl eq_refl)). destruct pl as [r|a dd e]; [destruct HK|].
+      rewrite !Hshift, Hen, Had, Hda. cbn. repeat split.
+Qed.
+
+(* ------------------------------------------------------------------ rejection, in the property's words *)
+Lemma syn_excl_iff : forall a b,
+  syn_excl a b = true <->
+  exists la lb, In la a /\ In lb b /\ fst la = fst lb /\ snd la <> snd lb.
+Proof.
+  intros a b. unfold syn_excl. rewrite existsb_exists. split.
+  - intros [la [Ha H]]. apply existsb_exists in H. destruct H as [lb [Hb H]].
+    destruct la as [pa na], lb as [pb nb]. cbn [fst snd] in H.
+    apply andb_true_iff in H. destruct H as [H1 H2]. apply Z.eqb_eq in H1.
+    exists (pa, na), (pb, nb). cbn [fst snd]. repeat split; try assumption.
+    destruct na, nb; cbn in H2; congruence.
+  - intros (la & lb & Ha & Hb & H1 & H2). exists la. split; [exact Ha|].
+    apply existsb_exists. exists lb. split; [exact Hb|].
+    destruct la as [pa na], lb as [pb nb]. cbn [fst snd] in *.
+    rewrite H1, Z.eqb_refl. destruct na, nb; cbn; congruence.
+Qed.
+
+Lemma syn_excl_sym : forall a b, syn_excl a b = syn_excl b a.
+Proof.
+  intros a b. destruct (syn_excl a b) eqn:E1, (syn_excl b a) eqn:E2; try reflexivity; exfalso.
+  - apply syn_excl_iff in E1. destruct E1 as (la & lb & Ha & Hb & H1 & H2).
+    assert (syn_excl b a = true) by (apply syn_excl_iff; exists lb, la; repeat split; auto).
+    congruence.
+  - apply syn_excl_iff in E2. destruct E2 as (la & lb & Ha & Hb & H1 & H2).
+    assert (syn_excl a b = true) by (apply syn_excl_iff; exists lb, la; repeat split; auto).
+    congruence.
+Qed.
+
+Lemma pairwise_excl_bad : forall l la lb a b c,
+  syn_excl la lb = false ->
+  pairwise_excl (a ++ (l, la) :: b ++ (l, lb) :: c) = false.
+Proof.
+  intros l la lb a b c H. induction a as [|x a IH]; cbn [app pairwise_excl].
+  - rewrite forallb_app. cbn [forallb fst snd]. rewrite lhs_eqb_refl, syn_excl_sym, H. cbn.
+    rewrite andb_false_r. reflexivity.
+  - rewrite IH. apply andb_false_r.
+Qed.
+
+Theorem rejects_non_exclusive : forall prog d l la lb a b c,
+  slits prog = a ++ (l, la) :: b ++ (l, lb) :: c ->
+  syn_excl la lb = false ->
+  elab prog d = None.
+Proof.
+  intros prog d l la lb a b c Hs H. apply elab_none_iff. unfold spec_accepts.
+  rewrite Hs, pairwise_excl_bad by exact H. apply andb_false_r.
+Qed.
+
+Theorem rejects_unguarded : forall prog d l,
+  In (l, []) (slits prog) -> elab prog d = None.
+Proof.
+  intros prog d l Hin. apply elab_none_iff. unfold spec_accepts.
+  assert (Hg : guarded (slits prog) = false).
+  { unfold guarded. destruct (forallb _ (slits prog)) eqn:E; [|reflexivity].
+    rewrite forallb_forall in E. specialize (E _ Hin). discriminate. }
+  rewrite Hg. reflexivity.
+Qed.
+
+(* the syntactic criterion is exact for independent predicates: two satisfiable path
+   conditions that are not syntactically exclusive can be active together *)
+Theorem syn_excl_complete : forall a b,
+  syn_excl a b = false -> syn_excl a a = false -> syn_excl b b = false ->
+  exists rho, holds rho a = true /\ holds rho b = true.
+Proof.
+  intros a b Hab Haa Hbb.
+  exists (fun p => existsb (fun l => (fst l =? p) && negb (snd l)) (a ++ b)).
+  assert (Hgen : forall c, (c = a \/ c = b) -> forall l, In l c ->
+            lit_holds (fun p => existsb (fun l0 => (fst l0 =? p) && negb (snd l0)) (a ++ b)) l = true).
+  { intros c Hc [p n] Hl. unfold lit_holds. cbn [fst snd]. destruct n; cbn.
+    - (* negated literal: p must not occur positively anywhere *)
+      rewrite xorb_true_r. apply negb_true_iff.
+      destruct (existsb (fun l0 => (fst l0 =? p) && negb (snd l0)) (a ++ b)) eqn:E; [|reflexivity].
+      exfalso. apply existsb_exists in E. destruct E as [[q nq] [Hq E]]. cbn in E.
+      apply andb_true_iff in E. destruct E as [E1 E2]. apply Z.eqb_eq in E1. subst q.
+      apply negb_true_iff in E2. subst nq.
+      apply in_app_or in Hq.
+      assert (Hcontra : forall x y, In (p, true) x -> In (p, false) y -> syn_excl x y = true).
+      { intros x y Hx Hy. apply syn_excl_iff. exists (p, true), (p, false). cbn. repeat split; auto. discriminate. }
+      destruct Hc as [-> | ->], Hq as [Hq|Hq].
+      + rewrite (Hcontra a a Hl Hq) in Haa. discriminate.
+      + rewrite (Hcontra a b Hl Hq) in Hab. discriminate.
+      + rewrite syn_excl_sym, (Hcontra b a Hl Hq) in Hab. discriminate.
+      + rewrite (Hcontra b b Hl Hq) in Hbb. discriminate.
+    - rewrite xorb_false_r. apply existsb_exists. exists (p, false). split.
+      + apply in_or_app. destruct Hc as [-> | ->]; [left|right]; exact Hl.
+      + cbn. rewrite Z.eqb_refl. reflexivity. }
+  split; unfold holds; apply forallb_forall; intros l Hl.
+  - apply (Hgen a); auto.
+  - apply (Hgen b); auto.
+Qed.
